@@ -11,7 +11,8 @@ export VERIF_ROOT="${VERIF_ROOT:-$ROOT}"
 mkdir -p "$ROOT/.bin"
 BIN="$ROOT/.bin/check.$$"
 MODARG=""
-trap 'rm -f "$BIN" "$ROOT/.bin/go.$$.mod" "$ROOT/.bin/go.$$.sum"' EXIT
+ERRF="$ROOT/.bin/stderr.$$"
+trap 'rm -f "$BIN" "$ERRF" "$ROOT/.bin/go.$$.mod" "$ROOT/.bin/go.$$.sum"' EXIT
 if [ -n "${VERIF_REPO:-}" ]; then
   sed "s#=> /repo#=> ${VERIF_REPO}#" "$ROOT/mc/go.mod" > "$ROOT/.bin/go.$$.mod"
   : > "$ROOT/.bin/go.$$.sum"
@@ -23,4 +24,28 @@ if ! (cd "$ROOT/mc" && go build $MODARG -o "$BIN" ./cmd/check) ; then
   exit 2
 fi
 if [ "${1:-}" = "build" ]; then exit 0; fi
-"$BIN" "$@"
+"$BIN" "$@" 2>"$ERRF"
+rc=$?
+cat "$ERRF" >&2
+# A Go runtime FATAL error (concurrent map writes, stack exhaustion, ...) kills
+# the process without unwinding, so the checker cannot report it itself. When
+# the dying stack runs through the library, that is a violation found by this
+# check, reported in the usual form.
+if [ $rc -eq 2 ] && grep -q '^fatal error:' "$ERRF" 2>/dev/null && grep -q 'github.com/onheap/eval\.' "$ERRF" && [[ "${1:-}" =~ ^C[0-9][0-9]$ ]]; then
+  OUT="${VERIF_OUT:-$VERIF_ROOT}"
+  mkdir -p "$OUT/replays"
+  REPLAY="$OUT/replays/$1-fatal.json"
+  python3 - "$1" "$ERRF" "$REPLAY" <<'PY'
+import json, sys
+pid, errf, out = sys.argv[1:4]
+txt = open(errf, errors="replace").read()
+i = txt.find("fatal error:")
+json.dump({"property": pid, "kind": "fatal-runtime-error",
+           "message": "the Go runtime aborted the checker inside the library: " + txt[i:].splitlines()[0],
+           "case": {"stderr": txt[i:i + 6000]}}, open(out, "w"), indent=1)
+PY
+  echo "  [fatal-runtime-error] $(grep -m1 '^fatal error:' "$ERRF") (inside github.com/onheap/eval)"
+  echo "VIOLATION property=$1 replay=$REPLAY"
+  exit 1
+fi
+exit $rc
